@@ -83,14 +83,17 @@ func Run(ctx *core.Ctx) {
 
 	// M1 deviations: the invariants are not vacuous
 	selftest := map[string]string{}
+	var devRuns []func()
 	for _, d := range []struct{ dev, cfg, prop, kind string }{
 		{"obligatory_append", "oblig", "NonInterference", "INVARIANT"},
 		{"obligatory_append", "oblig", "ReadOnlySharing", "PROPERTY"},
 		{"memo_cache", "none", "NonInterference", "INVARIANT"},
 		{"memo_cache", "none", "ReadOnlySharing", "PROPERTY"},
+		{"callee_params_into_shared_map", "none", "NonInterference", "INVARIANT"},
+		{"callee_params_into_shared_map", "none", "ReadOnlySharing", "PROPERTY"},
 	} {
 		d := d
-		bg(func() {
+		devRuns = append(devRuns, func() {
 			cfg := fmt.Sprintf("CONSTANT Dev = {\"%s\"}\nCONSTANT CfgName = \"%s\"\nCONSTANT GSize = 2\nCONSTANT Small = {2, 5}\nINIT Init\nNEXT Next\n%s %s\nCHECK_DEADLOCK FALSE\n", d.dev, d.cfg, d.kind, d.prop)
 			res, err := ctx.RunTLC(core.TLCOpts{Module: "SoyConcurrent", Cfg: cfg, Workers: 1, Timeout: 3 * time.Minute, Label: "deviation:" + d.dev + "/" + d.prop})
 			if err != nil {
@@ -107,6 +110,13 @@ func Run(ctx *core.Ctx) {
 			selftest[d.dev+"/"+d.prop] = "violated, as required"
 		})
 	}
+	// one after the other: they are tiny, and the JVMs of the reference runs
+	// should have the cores
+	bg(func() {
+		for _, f := range devRuns {
+			f()
+		}
+	})
 
 	// M1 reference + M2 export, then (a) forced schedules per family
 	type fam struct {
@@ -199,6 +209,7 @@ func decodeSetup(js string) (*ModelFamily, error) {
 			Bundle  map[string]*core.Tmpl        `json:"bundle"`
 			Data    map[string]map[string]core.V `json:"data"`
 			Cases   []Case                       `json:"cases"`
+			Shared  map[string]core.V            `json:"shared"`
 		} `json:"setup"`
 	}
 	if err := json.Unmarshal([]byte(js), &raw); err != nil {
@@ -211,7 +222,7 @@ func decodeSetup(js string) (*ModelFamily, error) {
 	}
 	prog := &core.Program{Bundle: s.Bundle, Glob: map[string]core.V{}, IJ: core.V{"t": "none"},
 		Plan: map[string]interface{}{"kind": "none"}, Aliases: map[string]bool{}}
-	in := &c08.Inputs{Files: core.UnparseProgram(prog, core.Style{}), Data: s.Data, IJ: core.V{"t": "none"}}
+	in := &c08.Inputs{Files: core.UnparseProgram(prog, core.Style{}), Data: s.Data, IJ: core.V{"t": "none"}, Shared: s.Shared}
 	return &ModelFamily{Cfg: cfg, Inputs: in, Cases: s.Cases}, nil
 }
 
@@ -305,6 +316,8 @@ func mismatchSig(m *Mismatch) core.Sig {
 		feat = "panic"
 	} else if m.Diff != nil {
 		feat = "bytes-differ:shared-state-mutated:" + m.Diff.Own
+	} else if m.CallerDiff != nil {
+		feat = "bytes-differ:caller-data-mutated:" + m.CallerDiff.Own
 	}
 	return core.Sig{Family: "concurrent-bytes", Feature: feat}
 }
